@@ -345,8 +345,8 @@ def r3_weight_provenance(ctx):
         bl = listform.build_of(f.node, next(k.value for k in pc[0].keywords if k.arg == "ballots"))
         if bl is not None:
             comps = [bl.node]
-            good = bl.kind == "flatmap" and not bl.conditional and astx.u(bl.iter).endswith(".ballots") and astx.call_name(bl.elt) == "expand_tied_ballot" \
-                and len(bl.elt.args) == 1 and astx.u(bl.elt.args[0]) == bl.var
+            good = bl.kind == "flatmap" and not bl.conditional and astx.u(bl.iter).endswith(".ballots") and isinstance(bl.elt, ast.Call) \
+                and astx.call_name(bl.elt) == "expand_tied_ballot" and len(bl.elt.args) == 1 and astx.u(bl.elt.args[0]) == bl.var
     ctx.check(good, f, comps[0] if comps else f.node, "resolve_profile_ties = all expansions of all ballots", "", "not every ballot's expansion is collected")
 
 
